@@ -153,22 +153,23 @@ func (w *worker) run(p *pg.Prog, mode int) (res runResult) {
 		if p.Case.Logger == 3 {
 			root = root.Debug()
 		}
+		k := p.Case.Prefix
+		withAGU := func(d *gorm.DB) *gorm.DB {
+			if agu {
+				return d.Session(&gorm.Session{AllowGlobalUpdate: true})
+			}
+			return d
+		}
 		switch mode {
 		case modeSession:
-			tx, _ = p.Run(root.Session(&gorm.Session{DryRun: true, AllowGlobalUpdate: agu}))
+			tx, _ = p.RunSplit(root, k, func(h *gorm.DB, body func(*gorm.DB) *gorm.DB) {
+				body(h.Session(&gorm.Session{DryRun: true, AllowGlobalUpdate: agu}))
+			})
 		case modeConfig, modeReal:
-			d := root
-			if agu {
-				d = d.Session(&gorm.Session{AllowGlobalUpdate: true})
-			}
-			tx, _ = p.Run(d)
+			tx, _ = p.RunSplit(root, k, func(h *gorm.DB, body func(*gorm.DB) *gorm.DB) { body(withAGU(h)) })
 		case modeToSQL:
-			res.toSQL = root.ToSQL(func(d *gorm.DB) *gorm.DB {
-				if agu {
-					d = d.Session(&gorm.Session{AllowGlobalUpdate: true})
-				}
-				tx, _ = p.Run(d)
-				return tx
+			tx, _ = p.RunSplit(root, k, func(h *gorm.DB, body func(*gorm.DB) *gorm.DB) {
+				res.toSQL = h.ToSQL(func(d *gorm.DB) *gorm.DB { return body(withAGU(d)) })
 			})
 		}
 		if tx != nil {
@@ -244,16 +245,28 @@ func sameVars(a, b []interface{}) bool {
 		return false
 	}
 	for i := range a {
-		if !reflect.DeepEqual(a[i], b[i]) {
-			return false
+		if reflect.DeepEqual(a[i], b[i]) {
+			continue
 		}
+		// two Valuers of the same type (e.g. gorm's serializer wrapper, which
+		// holds per-run pointers) are the same bound value iff they convert alike
+		va, oka := a[i].(driver.Valuer)
+		vb, okb := b[i].(driver.Valuer)
+		if oka && okb && reflect.TypeOf(a[i]) == reflect.TypeOf(b[i]) {
+			ca, ea := driver.DefaultParameterConverter.ConvertValue(va)
+			cb, eb := driver.DefaultParameterConverter.ConvertValue(vb)
+			if ea == nil && eb == nil && reflect.DeepEqual(ca, cb) {
+				continue
+			}
+		}
+		return false
 	}
 	return true
 }
 
 type stats struct {
-	programs, compared, bothNothing, unconvertible, dryWriteTx, realErr, dryErr, sampled                                                        int64
-	reads, writes, multi, multiRealStmts, classifiedPanics, bothError, bothMissingWhere, strict, writeNotReached, writeCompared, loggerCompared int64
+	programs, compared, bothNothing, unconvertible, dryWriteTx, realErr, dryErr, sampled                                                                          int64
+	reads, writes, multi, multiRealStmts, classifiedPanics, bothError, bothMissingWhere, strict, writeNotReached, writeCompared, loggerCompared, prefixed, modelU int64
 }
 
 func tags(p *pg.Prog) []string {
@@ -265,6 +278,10 @@ func tags(p *pg.Prog) []string {
 	if p.Case.Logger > 0 {
 		out = append(out, fmt.Sprintf("logger:%d", p.Case.Logger))
 	}
+	if p.Case.Prefix > 0 {
+		out = append(out, "receiver-prefix")
+	}
+	out = append(out, "model:"+pg.ModelName[p.Case.Model])
 	if p.Case.Strict {
 		if p.Case.SessionAGU {
 			out = append(out, "allow-global-update:session")
@@ -290,6 +307,9 @@ func check(run *mc.Run, w *worker, p *pg.Prog, st *stats, samples *mc.Samples, o
 	atomic.AddInt64(&st.programs, 1)
 	if p.Case.Strict {
 		atomic.AddInt64(&st.strict, 1)
+	}
+	if p.Case.Model == pg.ModelU {
+		atomic.AddInt64(&st.modelU, 1)
 	}
 	if p.Fin.Write {
 		atomic.AddInt64(&st.writes, 1)
@@ -549,6 +569,7 @@ func main() {
 		r1     []pg.Class
 		strict int // 0: AllowGlobalUpdate by config; 1: off; 2: off in the config, on by Session
 		logger int // 0 Discard, 1 Info+ParameterizedQueries, 2 Silent, 3 db.Debug()
+		prefix int // number of leading calls applied to the receiver before DryRun/ToSQL is entered
 	}
 	var items []item
 	addItems := func(shapes []pg.Shape, dev int, r1 []pg.Class, strict int) {
@@ -558,10 +579,11 @@ func main() {
 			stride++
 		}
 		for i := 0; i < n; i++ {
-			items = append(items, item{shapes[(i*stride)%n], dev, r1, strict % 10, strict / 10})
+			items = append(items, item{shapes[(i*stride)%n], dev, r1, strict % 10, (strict / 10) % 10, strict / 100})
 		}
 	}
 	both := []int{pg.ModelT, pg.ModelS}
+	all3 := []int{pg.ModelT, pg.ModelS, pg.ModelU}
 	all, core := pg.OpsFor(false, false), pg.OpsFor(true, false)
 	all2 := pg.OpsWith(false, false, false) // 2-call programs: without the shortest-spelling template calls (C01 matter)
 	var plan string
@@ -576,16 +598,26 @@ func main() {
 		return out
 	}
 	if !thorough {
-		addItems(pg.Shapes(both, pg.Seqs(all, 0, 1), pg.FinsFor(false, true)), 1, pg.PathClasses, 0)
+		// classes that differ in how a bound value is converted for the driver
+		convClasses := []pg.Class{pg.CStr, pg.CNilPtr, pg.CNullInvalid, pg.CBytes, pg.CSlice2, pg.CExpr, pg.CDValuerSlice, pg.CGValuer, pg.CSub, pg.CByteArray, pg.CTime}
+		addItems(pg.Shapes([]int{pg.ModelT}, pg.Seqs(all, 0, 1), pg.FinsFor(false, true)), 1, convClasses, 0)
+		addItems(pg.Shapes([]int{pg.ModelS}, pg.Seqs(all, 0, 1), pg.FinsFor(false, true)), 0, nil, 0)
 		for lg := 1; lg <= 3; lg++ {
 			addItems(pg.Shapes(both, pg.Seqs(all, 0, 1), pg.FinsFor(false, true)), 0, nil, 10*lg)
 		}
 		addItems(pg.Shapes(both, pg.Seqs(all, 0, 1), guarded(pg.FinsFor(false, true))), 0, nil, 1)
 		addItems(pg.Shapes(both, pg.Seqs(all, 0, 1), guarded(pg.FinsFor(false, true))), 0, nil, 2)
-		onlyS := []int{pg.ModelS} // timestamps + soft delete: the richer model
-		addItems(pg.Shapes(onlyS, pg.Seqs(all2, 2, 2), guarded(pg.FinsFor(true, true))), 0, nil, 1)
-		addItems(pg.Shapes(onlyS, pg.Seqs(all2, 2, 2), pg.FinsFor(true, true)), 0, nil, 0)
-		plan = fmt.Sprintf("<=1 call over %d calls x %d finishers x 2 models with <=1 slot deviating over %d path classes; 2 calls x %d representative finishers x model S with default classes", len(all), len(pg.FinsFor(false, true)), len(pg.PathClasses), len(pg.FinsFor(true, true)))
+		// the model with integer tracked-time / serializer / default / pointer fields
+		addItems(pg.Shapes([]int{pg.ModelU}, pg.Seqs(all, 0, 1), pg.FinsFor(false, true)), 0, nil, 0)
+		// receiver prefix: the leading call(s) are applied before Session{DryRun} / ToSQL is taken
+		addItems(pg.Shapes(all3, pg.Seqs(all, 1, 1), pg.FinsFor(false, true)), 0, nil, 100)
+		addItems(pg.CyclicShapes(all3, pg.Seqs(all2, 2, 2), pg.FinsFor(false, true), 2), 0, nil, 100)
+		addItems(pg.CyclicShapes(all3, pg.Seqs(all2, 2, 2), pg.FinsFor(false, true), 1), 0, nil, 200)
+		// 2-call programs: pairwise — every call sequence with 6 finishers (3 of the
+		// update/delete ones on the handles without AllowGlobalUpdate) and a model chosen cyclically
+		addItems(pg.CyclicShapes(all3, pg.Seqs(all2, 2, 2), guarded(pg.FinsFor(false, true)), 3), 0, nil, 1)
+		addItems(pg.CyclicShapes(all3, pg.Seqs(all2, 2, 2), pg.FinsFor(false, true), 6), 0, nil, 0)
+		plan = fmt.Sprintf("<=1 call over %d calls x %d finishers x 3 models (model T with <=1 slot deviating over 11 conversion-relevant classes of the %d path classes, S and U with default classes); every 2-call sequence with 6 of all finishers and a model chosen cyclically (pairwise cover of call x call, call x finisher, call x model; %d finishers), default classes", len(all), len(pg.FinsFor(false, true)), len(pg.PathClasses), len(pg.FinsFor(false, true)))
 	} else {
 		addItems(pg.Shapes(both, pg.Seqs(all, 0, 1), pg.FinsFor(false, true)), 1, nil, 0)
 		for lg := 1; lg <= 3; lg++ {
@@ -597,6 +629,11 @@ func main() {
 		addItems(pg.Shapes(both, pg.Seqs(all2, 2, 2), pg.FinsFor(false, true)), 0, nil, 0)
 		addItems(pg.Shapes(both, pg.Seqs(all2, 2, 2), pg.FinsFor(true, true)), 1, pg.PathClasses, 0)
 		addItems(pg.Shapes([]int{pg.ModelS}, pg.Seqs(core, 3, 3), pg.FinsFor(true, true)), 0, nil, 0)
+		addItems(pg.Shapes([]int{pg.ModelU}, pg.Seqs(all, 0, 1), pg.FinsFor(false, true)), 1, pg.PathClasses, 0)
+		addItems(pg.Shapes([]int{pg.ModelU}, pg.Seqs(all2, 2, 2), pg.FinsFor(true, true)), 0, nil, 0)
+		addItems(pg.Shapes(all3, pg.Seqs(all, 1, 1), pg.FinsFor(false, true)), 0, nil, 100)
+		addItems(pg.Shapes(both, pg.Seqs(all2, 2, 2), pg.FinsFor(false, true)), 0, nil, 100)
+		addItems(pg.Shapes(both, pg.Seqs(all2, 2, 2), pg.FinsFor(true, true)), 0, nil, 200)
 		plan = fmt.Sprintf("<=1 call over %d calls x %d finishers x 2 models with <=1 slot deviating over all %d classes; 2 calls x all finishers x 2 models with default classes and x %d representative finishers with <=1 slot deviating over %d path classes; 3 calls over the reduced alphabet of %d calls x representative finishers x model S", len(all), len(pg.FinsFor(false, true)), int(pg.NumClasses), len(pg.FinsFor(true, true)), len(pg.PathClasses), len(core))
 	}
 
@@ -630,7 +667,13 @@ func main() {
 				it := items[n]
 				it.shape.ClassVectors(it.dev, it.r1, nil, func(classes []int) {
 					p := it.shape.Prog(classes)
-					p.Case.Strict, p.Case.SessionAGU, p.Case.Logger = it.strict > 0, it.strict == 2, it.logger
+					p.Case.Strict, p.Case.SessionAGU, p.Case.Logger, p.Case.Prefix = it.strict > 0, it.strict == 2, it.logger, it.prefix
+					if p.Case.Prefix > len(p.Ops) {
+						return
+					}
+					if p.Case.Prefix > 0 {
+						atomic.AddInt64(&st.prefixed, 1)
+					}
 					check(run, w, p, st, samples, outcomes, false)
 				})
 				atomic.AddInt64(&shapesDone, 1)
@@ -650,6 +693,9 @@ func main() {
 		}
 		if st.bothMissingWhere < 50 {
 			run.HarnessError("vacuous: only %d condition-less updates/deletes refused alike by DryRun and real run", st.bothMissingWhere)
+		}
+		if st.prefixed < 1000 || st.modelU < 1000 {
+			run.HarnessError("vacuous: programs with a receiver prefix: %d, on model U: %d", st.prefixed, st.modelU)
 		}
 		if st.writeCompared < 100 {
 			run.HarnessError("vacuous: only %d lookup-then-write programs whose write statement was compared", st.writeCompared)
@@ -674,7 +720,7 @@ func main() {
 	run.Finish(map[string]interface{}{
 		"evaluations":         st.programs,
 		"distinct_nontrivial": texts.Len(),
-		"rule":                "every program is run as Session{DryRun:true}, Config.DryRun, ToSQL and for real from identical handles/data (counter clock reset, re-seed after writes): " + plan + "; all of these on handles with AllowGlobalUpdate, and every update/delete finisher additionally (<=1 call, and 2 calls with default classes) on handles WITHOUT AllowGlobalUpdate and with AllowGlobalUpdate switched on by Session; every program with <=1 call additionally on handles with the stock logger at Info with ParameterizedQueries, the stock logger at Silent, and db.Debug() (all writing to io.Discard); lookup-then-write finishers (FirstOrCreate / First,Take,Find + Save,Create into a pre-filled destination) compare their main INSERT instead of the first statement; non-trivial = distinct statement texts that reached the driver in the real run and were compared (text and converted values) with the DryRun statement",
+		"rule":                "every program is run as Session{DryRun:true}, Config.DryRun, ToSQL and for real from identical handles/data (counter clock reset, re-seed after writes): " + plan + "; all of these on handles with AllowGlobalUpdate, and every update/delete finisher additionally (<=1 call, and 2 calls with default classes) on handles WITHOUT AllowGlobalUpdate and with AllowGlobalUpdate switched on by Session; every program with <=1 call additionally on handles with the stock logger at Info with ParameterizedQueries, the stock logger at Silent, and db.Debug() (all writing to io.Discard); every program with <=1 call also on model U (integer tracked-time columns in seconds/millis/nanos, serializer, default-value and pointer fields); every 1-call program (3 models) and every 2-call sequence (pairwise: 2+1 finishers and a model chosen cyclically per sequence) also with the first call / both calls applied to the RECEIVER before Session{DryRun:true} / ToSQL is taken from it; lookup-then-write finishers (FirstOrCreate / First,Take,Find + Save,Create into a pre-filled destination) compare their main INSERT instead of the first statement; non-trivial = distinct statement texts that reached the driver in the real run and were compared (text and converted values) with the DryRun statement",
 		"samples":             samples.List(),
 		"exhaustive":          timedOut == 0 && tooMany == 0,
 		"shapes_total":        len(items),
@@ -694,6 +740,8 @@ func main() {
 		"lookup_then_write_programs_write_statement_compared":               st.writeCompared,
 		"lookup_then_write_programs_write_step_not_reached":                 st.writeNotReached,
 		"programs_compared_under_a_non_discard_logger":                      st.loggerCompared,
+		"programs_with_a_receiver_prefix":                                   st.prefixed,
+		"programs_on_the_model_with_transforming_fields":                    st.modelU,
 		"read_programs":                     st.reads,
 		"write_programs":                    st.writes,
 		"distinct_outcomes":                 outcomes.Len(),
